@@ -25,15 +25,30 @@ RULE += (" Reuse: descriptor objects kept alive and asked get_address for (offse
          "and twice in a row, alternately on two wallets, with in-place edits of quorum_m / key_records / network in "
          "between; checksum and parse called in sequences on related texts; one HDPublicKey asked for several children; "
          "constructor/get_address leave their arguments untouched.")
+RULE += (" Text layer: int() on sign/underscore/blank/4300-digit edge texts and random texts; split/join; the key-record regex and "
+         "parse_partial/full/any_key_record on printed key records and ~40 damaged variants each (star after the fingerprint, "
+         "doubled/missing brackets, line feeds, index spellings '+0' ' 0' '0_0' '-1' 2^31, 4300/4301 digits) plus random single-"
+         "character damage; the outer full-match regex on texts assembled from its pieces; P2WSHSortedMulti.parse on sampled "
+         "descriptors with/without checksum, padded with white space, with escaped slashes, wrapped in the Specter JSON account map "
+         "(valid, wrong checksum, missing/non-string field, malformed JSON), with every kind of damaged separator / checksum / "
+         "trailing and leading text, non-canonical m and index spellings, and random single-character substitutions; "
+         "is_valid_bip32_path on ~60 edge paths (255/256 components, 4300/4301 digits, blanks, underscores, signs) and random paths.")
 TRUSTED = ["hashlib / hmac (sha256, hmac-sha512, ripemd160 are not part of the repository)",
            "is_valid_bip32_path, HDPublicKey.parse/child/sec/xpub, Base58 and Bech32 belong to C08/C09; here their "
            "results enter the model as tables computed by the implementation and the predicates compare against an "
            "independent BIP32/secp256k1/Base58/Bech32 written in this harness",
-           "the two regular expressions of descriptor.py (re.match) are not modelled; parse is compared with the "
-           "structured model parse_struct on rendered texts and exercised by the substitution sweep",
+           "json.loads (the Specter-Desktop account-map branch of P2WSHSortedMulti.parse) is an external function of the model: "
+           "its result enters as a value computed by Python; Python's `re` is NOT trusted — both regular expressions are "
+           "modelled in Gallina (Model/DescriptorText.v) and compared with re.match / re.fullmatch on the literal patterns, which "
+           "the harness asserts to be the ones in the source",
            "during the substitution sweep only, HDPublicKey.child is memoised (same function, cached) to keep the "
            "sweep affordable; every other predicate and all correspondence cases run the unmodified library"]
 ASSUMPTIONS = ["str.lower() maps no character other than A-F into [a-f] (is_valid_xfp_hex model)",
+               "the text layer (int(), str.strip(), str.lower(), the regular expressions) is modelled for ASCII text: int() and "
+               "strip() also accept Unicode digits / blanks, which are outside the descriptor charset, so calc_core_checksum rejects "
+               "any constructor text containing them; CPython >= 3.11 (4300-digit limit of int() / str(int))",
+               "account_index and quorum_m below 10^4300 in absolute value (beyond that f'{n}' itself raises; the constructor now "
+               "bounds both anyway)",
                "texts in correspondence cases are ASCII or UTF-8 encodable; a non-ASCII code point is outside the "
                "descriptor charset for model and implementation alike"]
 
@@ -312,9 +327,13 @@ class _RecWS(WitnessScript):
 
 
 def i_get_address(m, net, recs, offset, chg, srt, derivs):
-    o = P2WSHSortedMulti(m, [{"xfp": "00000000", "path": "m", "xpub_parent": _s(k), "account_index": i}
+    # get_address is compared on arbitrary (m, records): the public fields are set after a valid construction
+    o = P2WSHSortedMulti(1, [{"xfp": "00000000", "path": "m", "xpub_parent": _s(k), "account_index": 0}
                              for _, _, k, i in recs], sort_key_records=False)
     assert NETNUM[o.network] == net and [r["xpub_parent"] for r in o.key_records] == [_s(k) for _, _, k, _ in recs]
+    o.quorum_m = m
+    for rec, (_, _, _, i) in zip(o.key_records, recs):
+        rec["account_index"] = i
     _RecWS.last = None
     descriptor.WitnessScript = _RecWS          # records the bytes get_address hashes
     try:
@@ -327,7 +346,128 @@ def i_get_address(m, net, recs, offset, chg, srt, derivs):
     return [_RecWS.last, prog, n]
 
 
+# ------------------------------------------------------------------ text layer (Model/DescriptorText.v)
+
+KEY_RE = r"\[([0-9a-f]{8})\*?(.*?)\]([0-9A-Za-z].*)"
+
+
+def record(fn, *a):
+    """Run fn(*a) with recording wrappers around the functions of hd.py that descriptor.py calls; returns the
+    tables (paths, xpubs, children) of every question asked, answered by the implementation's own code."""
+    paths, xpubs, children, src, keep = [], [], [], {}, []
+
+    class RecHD(HDPublicKey):
+        @classmethod
+        def parse(cls, s):
+            xpubs.append(s)
+            o = super().parse(s)
+            src[id(o)] = s
+            keep.append(o)
+            return o
+
+        def child(self, index):
+            if id(self) in src:
+                children.append((src[id(self)], index))
+            return super().child(index)
+
+    def path_ok(p):
+        paths.append(p)
+        return hd.is_valid_bip32_path(p)
+
+    old = descriptor.HDPublicKey, descriptor.is_valid_bip32_path
+    descriptor.HDPublicKey, descriptor.is_valid_bip32_path = RecHD, path_ok
+    try:
+        try:
+            fn(*a)
+        except Exception:
+            pass
+    finally:
+        descriptor.HDPublicKey, descriptor.is_valid_bip32_path = old
+    upaths = sorted({p for p in paths if isinstance(p, str)})
+    uxpubs = sorted({x for x in xpubs if isinstance(x, str)})
+    uch = sorted({(x, i) for x, i in children if isinstance(x, str) and isinstance(i, int)})
+    return ([[p, impl_path_ok(p)] for p in upaths], [[x, impl_hdparse(x)] for x in uxpubs],
+            [[x, i, impl_child(x, i) is not None] for x, i in uch])
+
+
+def i_re_key_record(t):
+    import inspect
+    import re
+    assert KEY_RE in inspect.getsource(descriptor.parse_partial_key_record), "key-record regex changed"
+    m = re.match(KEY_RE, _s(t))
+    return [list(m.groups())] if m else []
+
+
+def i_parse_partial(t, paths, xpubs):
+    r = descriptor.parse_partial_key_record(_s(t))
+    return [r["xfp"], r["path"], r["xpub"], NETNUM[r["network"]]]
+
+
+def i_parse_full(t, paths, xpubs, children):
+    r = descriptor.parse_full_key_record(_s(t))
+    return [[r["xfp"], r["path"], r["xpub_parent"], r["account_index"]], NETNUM[r["network"]]]
+
+
+def i_parse_any(t, paths, xpubs, children):
+    r = descriptor.parse_any_key_record(_s(t))
+    if "account_index" in r:
+        return [r["xfp"], r["path"], r["xpub_parent"], NETNUM[r["network"]], [r["account_index"]]]
+    return [r["xfp"], r["path"], r["xpub"], NETNUM[r["network"]], []]
+
+
+OUTER_RE = r"wsh\(sortedmulti\(([0-9]*),(.*)\)\)(\#[qpzry9x8gf2tvdw0s3jn54khce6mua7l]{8})?"
+
+
+def i_outer_groups(t):
+    import inspect
+    import re
+    assert OUTER_RE in inspect.getsource(P2WSHSortedMulti.parse) and "re.fullmatch" in inspect.getsource(P2WSHSortedMulti.parse), \
+        "outer regex of P2WSHSortedMulti.parse changed"
+    m = re.fullmatch(OUTER_RE, _s(t))
+    if not m:
+        return []
+    a, b, c = m.groups()
+    return [[a, b, c[1:] if c else ""]]
+
+
+def json_table(t):
+    """what json.loads(text)["descriptor"] gives for the stripped text when it starts with "{" (a str), else []"""
+    import json
+    s0 = _s(t).strip()
+    if not s0.startswith("{"):
+        return []
+    try:
+        v = json.loads(s0)["descriptor"]
+    except (ValueError, KeyError):
+        return []
+    return [v] if isinstance(v, str) else []
+
+
+def i_parse_text(t, js, paths, xpubs, children):
+    return vdesc(P2WSHSortedMulti.parse(_s(t)))
+
+
+def i_m_of_n(m, recs):
+    o = object.__new__(P2WSHSortedMulti)
+    o.quorum_m = m
+    o.key_records = mkrecs(recs)
+    return [o.quorum_n, o.m_of_n]
+
+
 IMPL = {
+    "py_int": lambda t: int(_s(t)),
+    "split_on": lambda sep, t: _s(t).split(chr(sep)),
+    "join_on": lambda sep, l: chr(sep).join(_s(x) for x in l),
+    "re_key_record": i_re_key_record,
+    "parse_partial": i_parse_partial,
+    "parse_full": i_parse_full,
+    "parse_any": i_parse_any,
+    "m_of_n": i_m_of_n,
+    "path_valid": lambda t: bool(hd.is_valid_bip32_path(_s(t))),
+    "parse_text": i_parse_text,
+    "outer_groups": i_outer_groups,
+    "unescape": lambda t: _s(t).replace("\\/", "/"),
+    "strip": lambda t: _s(t).strip(),
     "poly_mod": lambda c, v: descriptor.calc_poly_mod(c, v),
     "core_polymod": lambda c, v: descriptor.calc_poly_mod(c, v),
     "checksum": lambda t: descriptor.calc_core_checksum(_s(t)),
@@ -403,15 +543,17 @@ def p_roundtrip(m, recs):
             return f"parse(str(d)) differs from d (variant {t[:6]!r}...)"
     wrong = "".join(CHECKSUM_CHARSET[(CHECKSUM_CHARSET.index(c) + 1) % 32] for c in cs)
     rot = cs[1:] + cs[0] if cs[1:] + cs[0] != cs else wrong
-    # malformed or wrong checksums (appending text after 8 valid characters is not a substitution and is
-    # tolerated by the parser's trailing `.*`; it is not tested here)
-    bads = ["", "a", "a" * 9, "X", cs[:-1], cs[:-1] + "b", cs[:-1] + "1", wrong, rot]
+    # malformed or wrong checksums, text after the checksum
+    bads = ["", "a", "a" * 9, "X", cs[:-1], cs[:-1] + "b", cs[:-1] + "1", wrong, rot, cs + "q", cs + " x", cs + "#" + cs]
     for bad in (bads if len(recs) <= 2 else [cs[:-1], wrong]):
         try:
             P2WSHSortedMulti.parse(body + "#" + bad)
         except ValueError:
             continue
         return f"malformed or wrong checksum {bad!r} accepted"
+    for t in ("x" + text, "sh(" + text + ")", body + "!" + cs, body + cs, body + " #" + cs, body + ")#" + cs):
+        if len(recs) <= 2 and _accepts(t) is not None:
+            return f"text that is not exactly the descriptor accepted: {t[:8]!r}...{t[-12:]!r}"
     try:
         P2WSHSortedMulti(m, mkrecs(recs), checksum=wrong)
     except ValueError:
@@ -684,7 +826,36 @@ def p_reuse_hdpub(xpub, idxs):
     return None
 
 
-PROPS = {"checksum_ref": p_checksum_ref, "vectors": p_vectors, "roundtrip": p_roundtrip, "order": p_order,
+def p_path_assumptions(path):
+    """the hypotheses of the text round-trip theorems about hd.is_valid_bip32_path (ASCII text): a valid path stays
+    valid when it is rewritten to "m" + path.strip()[1:], and contains none of  ] , \\ # *  """
+    path = _s(path)
+    if not hd.is_valid_bip32_path(path):
+        return None
+    if not hd.is_valid_bip32_path("m" + path.strip()[1:]):
+        return f"valid path {path!r} is invalid after the constructor's rewriting"
+    bad = set(path) & set("],\\#*")
+    if bad:
+        return f"valid path {path!r} contains {sorted(bad)}"
+    return None
+
+
+def p_xpub_assumptions(xpub):
+    """the hypotheses about HDPublicKey: the re-encoded xpub is non-empty alphanumeric text that parses to itself and
+    to the same network"""
+    got = impl_hdparse(_s(xpub))
+    if not got:
+        return None
+    xp, net = got
+    if not xp or not xp.isascii() or not xp.isalnum():
+        return f"re-encoded xpub {xp!r} is not alphanumeric"
+    if impl_hdparse(xp) != [xp, net]:
+        return "re-encoded xpub does not parse to itself"
+    return None
+
+
+PROPS = {"path_assumptions": p_path_assumptions, "xpub_assumptions": p_xpub_assumptions,
+         "checksum_ref": p_checksum_ref, "vectors": p_vectors, "roundtrip": p_roundtrip, "order": p_order,
          "address": p_address, "subst": p_subst, "subst_separator": p_subst_separator,
          "regex_class": p_regex_class, "ctor_own_output": p_ctor_own_output,
          "reuse_desc": p_reuse_desc, "checksum_order": p_checksum_order, "parse_order": p_parse_order,
@@ -692,10 +863,6 @@ PROPS = {"checksum_ref": p_checksum_ref, "vectors": p_vectors, "roundtrip": p_ro
 
 
 def classify(v):
-    if v["kind"] == "prop" and v["name"] == "subst_separator":
-        return "C16-separator-substitution-skips-checksum"
-    if v["kind"] == "prop" and v["name"] == "ctor_own_output":
-        return "C16-constructor-accepts-what-parse-rejects"
     return None
 
 
@@ -937,6 +1104,156 @@ def generate(ctx):
     yield construct_case(1, [a.rec(r), a.rec(r, idx=5)])    # the same xpub twice
     yield construct_case(1, [a.rec(r, idx=5), a.rec(r)])
     yield ("prop", "ctor_own_output", [1, [a.rec(r), a.rec(r, idx=5)]])
+
+    # ---- text layer: int(), split/join, the key-record regex, parse_partial/full/any_key_record on text
+    for t in ["0", "00", "7", "+1", "-1", "-0", " 1", "1 ", "\t1\n", "\x0b1\x0c", "\x1c1", "1\x1f", "1_0", "_1", "1_", "1__0",
+              "", " ", "+", "-", "+-1", "++1", "1 0", "0x10", "1e3", "1.0", "+ 1", "1+", "2147483647", "2147483648",
+              "-2147483649", "1" * 4300, "1" * 4301, "0" * 4301, "+" + "9" * 4300, " " + "1_" * 2149 + "1", "1_" * 4300 + "1",
+              "*", "/", "a"]:
+        ctx.label("text/int")
+        yield ("corr", "py_int", [t])
+    for _ in range(ctx.n(150, 5000)):
+        yield ("corr", "py_int", [rtext(r, r.randrange(0, 8), "0123456789_+- \t\n\x0b\x1c")])
+    for _ in range(ctx.n(60, 2000)):
+        t = rtext(r, r.randrange(0, 12), "ab/,/,")
+        sep = r.choice([47, 44])
+        yield ("corr", "split_on", [sep, t])
+        yield ("corr", "join_on", [sep, t.split(chr(r.choice([47, 44])))])
+    yield ("corr", "join_on", [47, []])
+    yield ("corr", "join_on", [47, [""]])
+    yield ("corr", "join_on", [47, ["", ""]])
+
+    def text_cases(t):
+        ctx.label("text/key-record")
+        yield ("corr", "re_key_record", [t])
+        p, x, c = record(descriptor.parse_partial_key_record, t)
+        yield ("corr", "parse_partial", [t, p, x])
+        p, x, c = record(descriptor.parse_full_key_record, t)
+        yield ("corr", "parse_full", [t, p, x, c])
+        p, x, c = record(descriptor.parse_any_key_record, t)
+        yield ("corr", "parse_any", [t, p, x, c])
+
+    seen_kr = set()
+    kr_texts = []
+    for m, n, net, recs in wallets[: ctx.n(6, 40)]:
+        x, p, k, i = r.choice(recs)
+        kr_texts.append((f"[{x}{p[1:]}]{k}", i))
+    k0 = pool["mainnet"][0]
+    kr_texts.append((f"[{k0.xfp}]{k0.plain}", 0))
+    kr_texts.append((f"[{k0.xfp}/48h/0h]{k0.plain}", 2 ** 31 - 1))
+    for part, idx in kr_texts:
+        full = f"{part}/{idx}/*"
+        variants = [full, part, part + "/*", part + "/" + str(idx), full + "/*", full + "\n", full + "\njunk", part + "\n/0/*",
+                    "*", "0/*", "/0/*", "", "[", "[]", part + "/+0/*", part + "/ 0/*", part + "/0 /*", part + "/0_0/*",
+                    part + "/-1/*", part + "/2147483648/*", part + "/2147483647/*", part + "//*", part + "/x/*",
+                    part + "/0/**", part + "/0/* ", " " + full, part[:9] + "*" + part[9:] + "/0/*",
+                    part[:9] + "**" + part[9:] + "/0/*", part.replace("]", "]]", 1) + "/0/*",
+                    part.replace("]", "]/]", 1) + "/0/*", part.replace("]", "\n]", 1) + "/0/*",
+                    part.replace("]", "]-", 1) + "/0/*", part.replace("]", "", 1) + "/0/*",
+                    part[:1] + part[1:9].upper() + part[9:] + "/0/*", part[:8] + part[9:] + "/0/*",
+                    part[:9] + "0" + part[9:] + "/0/*", part + "," + full, part.replace("/", "\\/") + "/0/*",
+                    part + "/" + "0" * 4300 + "/*", part + "/" + "0" * 4301 + "/*"]
+        for _ in range(ctx.n(25, 300)):           # single-character damage at a random place
+            pos = r.randrange(len(full))
+            variants.append(full[:pos] + r.choice(INPUT_CHARSET + "\n") + full[pos + 1:])
+            variants.append(full[:pos] + full[pos + 1:])
+        for t in variants:
+            if t in seen_kr:
+                continue
+            seen_kr.add(t)
+            yield from text_cases(t)
+    for m, n, net, recs in wallets[: ctx.n(5, 30)]:
+        yield ("corr", "m_of_n", [m, recs])
+    yield ("corr", "m_of_n", [17, []])
+
+    # ---- P2WSHSortedMulti.parse on text: strip, JSON account map, escaped slashes, the full-match regex
+    for _ in range(ctx.n(80, 3000)):
+        yield ("corr", "unescape", [rtext(r, r.randrange(0, 9), "\\\\//a")])
+        yield ("corr", "strip", [rtext(r, r.randrange(0, 7), " \t\n\x0b\x0c\r\x1c\x1d\x1e\x1f\x00\x08ab{")])
+    pieces = ["wsh(sortedmulti(", "wsh(sortedmulti(", "wsh(sortedmulti", "Wsh(sortedmulti(", "1", "12", "", ",", ",", "a", "))",
+              "))", ")", "#", "#", "qpzry9x8", "qpzry9x", "qpzry9x8g", "qpzry9xb", "\n", " ", "x"]
+    for _ in range(ctx.n(300, 10000)):
+        k = r.randrange(8)
+        if k < 5:
+            t = "wsh(sortedmulti(" + r.choice(["1", "", "03", "2x"]) + r.choice([",", ",", ""]) + \
+                "".join(r.choice(pieces[10:]) for _ in range(r.randrange(0, 6)))
+        else:
+            t = "".join(r.choice(pieces) for _ in range(r.randrange(0, 8)))
+        ctx.label("text/outer-regex")
+        yield ("corr", "outer_groups", [t])
+
+    def ptext_case(t):
+        ctx.label("text/parse")
+        p, x, c = record(P2WSHSortedMulti.parse, t)
+        return ("corr", "parse_text", [t, json_table(t), p, x, c])
+
+    import json as _json
+    for text in sorted(sampled, key=len)[: ctx.n(3, 12)]:
+        body, _, cs = text.rpartition("#")
+        other = "".join(CHECKSUM_CHARSET[(CHECKSUM_CHARSET.index(c) + 7) % 32] for c in cs)
+        vs = [text, body, "  " + text + "\n", "\t" + body + " \x1f", text.replace("/", "\\/"), body.replace("/", "\\/", 3),
+              _json.dumps({"label": "w", "blockheight": 0, "descriptor": text}),
+              " " + _json.dumps({"descriptor": " " + text + " ", "devices": []}).replace("/", "\\/") + "\n",
+              _json.dumps({"label": "w", "descriptor": body + "#" + other}), _json.dumps({"descriptor2": text}),
+              _json.dumps({"descriptor": 5}), _json.dumps({"descriptor": None}), _json.dumps({"descriptor": [text]}),
+              "{", "{}", "{" + text, _json.dumps([text]), _json.dumps(text), "{\"descriptor\": \"" + text + "\"} x",
+              text + "x", text + " x", "x" + text, "sh(" + text + ")", body + "#" + other, body + "#" + cs[:-1], body + "#" + cs + "q",
+              body + "#", body + "##" + cs, body[:-1] + "#" + cs, body[:-2] + "#" + cs, body + ")#" + cs, body + "))#" + cs,
+              body + "#" + cs + "))", body + cs, body + "#" + cs.upper(), text.replace("\n", ""), body[:40] + "\n" + body[40:],
+              body[:40] + "#" + body[40:], body[:40] + "#" + body[40:] + "#" + cs, text.replace(",[", ",[*", 1), body.replace(",[", ",[*", 1),
+              body.replace("/*", "/ *", 1), body.replace("/*,", "/*, ", 1), body.replace("/*", "/**", 1)]
+        for sep in r.sample([c for c in INPUT_CHARSET if c != "#"], ctx.n(6, 30)) + ["\n", "\\", "/"]:
+            vs.append(body + sep + cs)
+        mstr = body[len("wsh(sortedmulti("):body.index(",")]
+        rest = body[body.index(","):]
+        for ms in ["", "0" + mstr, "+" + mstr, " " + mstr, mstr + " ", "0", "9", mstr + "_0", "1" * 4301]:
+            vs.append("wsh(sortedmulti(" + ms + rest)
+        i0 = body.index("]")
+        j0 = body.index("/*", i0)
+        k0_ = body.rindex("/", 0, j0)
+        idx = body[k0_ + 1:j0]
+        for ix in ["+" + idx, " " + idx, idx + " ", "0" + idx, idx + "_0", "", "-1", "2147483648", "x"]:
+            vs.append(body[:k0_ + 1] + ix + body[j0:])
+            vs.append(body[:k0_ + 1] + ix + body[j0:] + "#" + cs)
+        vs.append(body[:i0 - 3] + body[i0 - 3:i0].upper() + body[i0:])
+        x0 = body.index("[") + 1
+        vs.append(body[:x0] + body[x0:x0 + 8].upper() + body[x0 + 8:])
+        for _ in range(ctx.n(12, 120)):
+            pos = r.randrange(len(text))
+            vs.append(text[:pos] + r.choice(INPUT_CHARSET) + text[pos + 1:])
+        seen_t = set()
+        for t in vs:
+            if t not in seen_t:
+                seen_t.add(t)
+                yield ptext_case(t)
+
+    # ---- the hypotheses of the round-trip theorems about hd.py, checked on the implementation
+    palpha = "mM/0123456789hH' \t_+-x],\\#*"
+    for _ in range(ctx.n(400, 20000)):
+        k = r.randrange(4)
+        if k == 0:
+            pth = rtext(r, r.randrange(0, 10), palpha)
+        else:
+            pth = r.choice(["m", "M", " m", "m ", "\tM"]) + "".join(
+                "/" + r.choice(["", " ", "+"]) + str(r.choice([0, 1, 48, 2 ** 31 - 1, 2 ** 31, r.randrange(2 ** 31)]))
+                + r.choice(["", "h", "H", "'", " ", "_0", "]", "*", ","]) for _ in range(r.randrange(0, 5))) + r.choice(["", " ", "\n", "/"])
+        ctx.label("assumption/path")
+        yield ("prop", "path_assumptions", [pth])
+        yield ("corr", "path_valid", [pth])
+    for pth in ["", "m", "M", "m/", "/", "m//", "m///1", "m//1", "m/1//2", "m/1///2", "'m", "m/'", "m/h", "m/1h", "m/1'", "m/1H", "m/1hh",
+                "m/1'h", "m/-0", "m/+0", "m/-1", "m/2147483647", "m/2147483648", "m/2147483647h", "m/ 1", "m/1 ", "m/1\t/2", "m/1\n/2",
+                "m/1\n", "\nm/1", "m/1_0", "m/_1", "m/1_", "m/0x1", "m/1e1", "n/1", "mm/1", "m1", "m/m", "m/1/m", "\x1cm/1", "m/1\x1c",
+                "m/\x1c1", "m/" + "0" * 4300, "m/" + "0" * 4301, "m/" + "0" * 4300 + "h", "m/" + "0" * 4301 + "h",
+                "m/" + "/".join(["1"] * 255), "m/" + "/".join(["1"] * 256), "m/" + "/".join(["1"] * 255) + "/",
+                "m/" + "//".join(["1"] * 255), "m" + "/1" * 254 + "//", "m/48h/0h/0h/2h", "M/48H/0'/0h/2H", " m/48h ", "m/48h/", "m/ /1"]:
+        ctx.label("path/edge")
+        yield ("corr", "path_valid", [pth])
+        yield ("prop", "path_assumptions", [pth])
+    for net in NETS:
+        for kk in pool[net]:
+            ctx.label("assumption/xpub")
+            yield ("prop", "xpub_assumptions", [kk.plain])
+            yield ("prop", "xpub_assumptions", [kk.xpub(r, True)])
 
     # ---- single-character substitutions
     sizes = sorted(sampled, key=len)
